@@ -18,6 +18,7 @@ class CannotEval(Exception):
 
 _CMP = {ast.Eq: operator.eq, ast.NotEq: operator.ne, ast.Lt: operator.lt, ast.LtE: operator.le, ast.Gt: operator.gt, ast.GtE: operator.ge,
         ast.Is: operator.is_, ast.IsNot: operator.is_not, ast.In: lambda a, b: a in b, ast.NotIn: lambda a, b: a not in b}
+_ARITH = {ast.Add: operator.add, ast.Sub: operator.sub, ast.Mult: operator.mul, ast.Div: operator.truediv, ast.Pow: operator.pow, ast.FloorDiv: operator.floordiv, ast.Mod: operator.mod}
 _TYPES = {"dict": dict, "list": list, "str": str, "bytes": bytes, "int": int, "tuple": tuple}
 
 
@@ -87,6 +88,14 @@ def ev(e: ast.AST, env: dict):
                 recv = ev(inner.func.value, env)
                 return next(iter(getattr(recv, inner.func.attr)()))
         raise CannotEval(f"call {u(e)[:60]}")
+    if isinstance(e, ast.BinOp) and type(e.op) in _ARITH:
+        a, b = ev(e.left, env), ev(e.right, env)
+        if not (isinstance(a, (int, float)) and isinstance(b, (int, float))):
+            raise CannotEval(f"{u(e)[:60]}: non-numeric operands")
+        try:
+            return _ARITH[type(e.op)](a, b)
+        except (ZeroDivisionError, OverflowError) as x:
+            raise CannotEval(f"{u(e)[:60]}: {type(x).__name__}")
     if isinstance(e, ast.NamedExpr):
         v = ev(e.value, env)
         env[e.target.id] = v
